@@ -74,19 +74,10 @@ def vanillaIter (g : Game α) (sampled : Bool) (p : RegretParams α) (draw : Dra
   let (two, r2) := advanceAll p it it s.two 0
   (⟨one, two⟩, r1, r2, d.log)
 
-/-- the `for it in 1..=iter` loop with its `break` -/
-def vanillaLoop (g : Game α) (sampled : Bool) (p : RegretParams α) (draw : DrawFn α)
-    (thr : Option (Ext α)) : Nat → Nat → SolveSt α → Ext α → Ext α → List (DrawRec α) → SolveOut α
-  | 0, it, s, r1, r2, log => ⟨r1, r2, s.avg true, s.avg false, it - 1, log⟩
-  | n + 1, it, s, _, _, log =>
-    let (s, r1, r2, log) := vanillaIter g sampled p draw it s log
-    if belowThreshold r1 r2 thr then ⟨.fin r1, .fin r2, s.avg true, s.avg false, it, log⟩
-    else vanillaLoop g sampled p draw thr n (it + 1) s (.fin r1) (.fin r2) log
-
 /-- `solve_full_single` / `solve_sampled_single` -/
 def solveVanillaSingle (g : Game α) (sampled : Bool) (p : RegretParams α) (draw : DrawFn α)
     (maxIter : Nat) (thr : Option (Ext α)) : SolveOut α :=
-  vanillaLoop g sampled p draw thr maxIter 1 (SolveSt.init g) .posInf .posInf []
+  solveWith g (vanillaIter g sampled p draw) maxIter thr
 
 end
 end Cfr
